@@ -697,6 +697,11 @@ func (e *Enc) encTypeAssert(ins *ssa.TypeAssert, st *State) {
 	} else {
 		val, ok = e.unbox(x, at)
 	}
+	if strings.Contains(val, "unbox:") {
+		// a value boxed as iface.val round-trips through its payload accessor
+		s := e.st.sortOf(at)
+		e.assume(fmt.Sprintf("(=> %s (= (%s %s) (ifv.v %s)))", ok, q("box:"+s), val, x))
+	}
 	if ins.CommaOk {
 		okc := e.freshConst("ok."+ins.Name(), "Bool")
 		e.assume(fmt.Sprintf("(= %s %s)", okc, ok))
